@@ -359,7 +359,10 @@ Lemma rcheck_if_eq : forall G ph c ift iff,
   rcheck_stmt T G (ASIf ph c ift iff) =
   if rcheck_expr G c then
     match rcheck_block T G ift, rcheck_block T G iff with
-    | Some G1, Some G2 => if phis_bound ph G1 G2 then rmerge T ph G1 G2 else None
+    | Some G1, Some G2 =>
+        if blk_ret ift then (match ph with [] => Some G2 | _ => None end)
+        else if blk_ret iff then (match ph with [] => Some G1 | _ => None end)
+        else if phis_bound ph G1 G2 then rmerge T ph G1 G2 else None
     | _, _ => None
     end
   else None.
@@ -486,12 +489,28 @@ Proof.
       * (* if *) rewrite rcheck_if_eq in Hc. destruct (rcheck_expr G c) eqn:He; [|discriminate].
         destruct (rcheck_block T G ift) as [G1|] eqn:Hb1; [|discriminate].
         destruct (rcheck_block T G iff) as [G2|] eqn:Hb2; [|discriminate].
-        destruct (phis_bound ph G1 G2) eqn:Hp; [|discriminate].
-        estep. pure. apply after_phis_r; [eapply phis_bound_current; eauto|]. destruct x.
-        -- eapply mokP_weaken; [eapply IHb; eauto|].
-           intros [o m] Ho. unfold rosat in *. cbn [fst] in *. destruct o; auto. eapply rmerge_l; eauto.
-        -- eapply mokP_weaken; [eapply IHb; eauto|].
-           intros [o m] Ho. unfold rosat in *. cbn [fst] in *. destruct o; auto. eapply rmerge_r; eauto.
+        assert (NoPhi : forall Gm, phis_current [] Gm) by (intros Gm x a []).
+        destruct (blk_ret ift) eqn:R1; [|destruct (blk_ret iff) eqn:R2].
+        -- (* the then-arm always returns *)
+           destruct ph; [|discriminate]. inversion Hc; subst.
+           estep. pure. apply after_phis_r; [apply NoPhi|]. destruct x.
+           ++ eapply mokP_weaken_eq; [eapply IHb; eauto|].
+              intros [o m] Eo Ho. unfold rosat in *. cbn [fst] in *. destruct o as [s' D'|rv]; auto.
+              exfalso. exact (blk_always_returns _ _ _ _ _ _ _ _ _ _ _ R1 Eo).
+           ++ eapply IHb; eauto.
+        -- (* the else-arm always returns *)
+           destruct ph; [|discriminate]. inversion Hc; subst.
+           estep. pure. apply after_phis_r; [apply NoPhi|]. destruct x.
+           ++ eapply IHb; eauto.
+           ++ eapply mokP_weaken_eq; [eapply IHb; eauto|].
+              intros [o m] Eo Ho. unfold rosat in *. cbn [fst] in *. destruct o as [s' D'|rv]; auto.
+              exfalso. exact (blk_always_returns _ _ _ _ _ _ _ _ _ _ _ R2 Eo).
+        -- destruct (phis_bound ph G1 G2) eqn:Hp; [|discriminate].
+           estep. pure. apply after_phis_r; [eapply phis_bound_current; eauto|]. destruct x.
+           ++ eapply mokP_weaken; [eapply IHb; eauto|].
+              intros [o m] Ho. unfold rosat in *. cbn [fst] in *. destruct o; auto. eapply rmerge_l; eauto.
+           ++ eapply mokP_weaken; [eapply IHb; eauto|].
+              intros [o m] Ho. unfold rosat in *. cbn [fst] in *. destruct o; auto. eapply rmerge_r; eauto.
       * (* while *) rewrite rcheck_while_eq in Hc.
         destruct (rhead T ph G) as [Gh|] eqn:Hh; [|discriminate].
         destruct (rhead_ok ph Gh && rcheck_expr Gh c) eqn:H1; [|discriminate]. bsp.
